@@ -427,7 +427,8 @@ def check_witness_reader(ctx, oid):
     R = ctx.R
     ev = ctx.evaluator(max_depth=12)
     fs, fd = ctx.fn("bits.script.utils.script"), ctx.fn("bits.script.utils.decode_script")
-    stacks = [[], [0], [1], [71, 33], [0, 71, 71, 105], [252], [253], [254], [255, 256], [65535], [65536], [0, 0], [1] * 5]
+    stacks = [[], [0], [1], [71, 33], [0, 71, 71, 105], [252], [253], [254], [255, 256], [65535], [65536], [0, 0], [1] * 5,
+              [0] * 253, [1] * 252, [1] * 253]  # ... and stacks whose ITEM COUNT crosses the one-byte CompactSize form
     if ctx.thorough:
         stacks += [[L] for L in range(0, 300)] + [[1] * k for k in range(6, 21)] + [[253, 0, 1, 65536]]
     has_parse = "parse" in [a.arg for a in fd.node.args.args]
@@ -448,7 +449,7 @@ def check_witness_reader(ctx, oid):
                 ok = k2 == "return" and isinstance(v2, (list, tuple)) and len(v2) == 2 and _same(v2[0], want0) and _same(v2[1], rest)
                 if not ok:
                     bad.append((st, "parse=%s, %s trailing bytes: %s %s" % (parse, "no" if rest == b"" else 9, k2, tm.show(v2)[:160])))
-    R.check(oid, "ROUND-TRIP", fd, "witness stack reader inverts the writer for %d stacks (empty stack, empty items, items across 252/253/65535/65536), with and without trailing bytes%s" % (
+    R.check(oid, "ROUND-TRIP", fd, "witness stack reader inverts the writer for %d stacks (empty stack, empty items, items across 252/253/65535/65536, 252/253 items), with and without trailing bytes%s" % (
         len(stacks), ", decoded and parse=True forms" if has_parse else ""), not bad,
             "decode_script(witness=True) does not return (items, remainder) for item lengths %s: %s" % (_short(bad[0][0]) if bad else "", bad[0][1] if bad else ""),
             example=("a witness stack with item lengths %s" % _short(bad[0][0])) if bad else None)
